@@ -17,6 +17,8 @@ import (
 type optDecl struct {
 	Names string `json:"names"` // as given to mow.cli, e.g. "a aa"
 	Flag  bool   `json:"flag"`
+	// Version: this option is the one Cli.Version declares (no recording variable behind it)
+	Version bool `json:"version"`
 }
 
 type program struct {
@@ -90,6 +92,8 @@ type execCase struct {
 	Prerun [][]string `json:"prerun"`
 	// ArgvHex, when given, replaces Argv: hex-encoded byte strings; the values are then logged hex-encoded too
 	ArgvHex []string `json:"argv_hex"`
+	// PostHelp: after Run returned, the application's help is requested through PrintHelp; its usage line is reported
+	PostHelp bool `json:"posthelp"`
 }
 
 type execResult struct {
@@ -105,6 +109,7 @@ type execResult struct {
 	Hooks    []string            `json:"hooks,omitempty"` // Before/After interceptors that ran
 	ErrLines []string            `json:"errlines,omitempty"`
 	Usage    string              `json:"usage,omitempty"`
+	PostUsage string             `json:"postusage,omitempty"`
 }
 
 func init() {
@@ -192,6 +197,10 @@ func runExec(p program, c execCase) (r execResult) {
 		nosbu[k] = true
 	}
 	declOpt := func(o optDecl) {
+		if o.Version {
+			app.Version(o.Names, "VERSION-STRING-2.0")
+			return
+		}
 		k := optKey(o.Names)
 		l, b := new([]string), new(bool)
 		logs["O:"+k] = l
@@ -271,6 +280,12 @@ func runExec(p program, c execCase) (r execResult) {
 	}
 	if err := app.Run(append([]string{"app"}, argv...)); err != nil {
 		r.Err = err.Error()
+	}
+	if c.PostHelp {
+		mark := errBuf.Len()
+		app.PrintHelp()
+		_, r.PostUsage = digest(errBuf.String()[mark:])
+		errBuf.Truncate(mark)
 	}
 	return
 }
